@@ -448,6 +448,34 @@ func rC10CopyOptions(w *World, r *Report) {
 		_, isChildTable := loadOfField(mu.Map, fCO)
 		ru.Check(good && isChildTable, "copy/same-record", w.IPos(mu), "child.ChildOptions[k] = v for (k, v) of the parent's table", "children do not receive the parent's own record under the same name (a copy would not see parsed values)")
 	})
+	// the same copy written as maps.Copy(child.ChildOptions, parent.ChildOptions): every (key, record) of the parent
+	for _, c := range allCalls(fn) {
+		if calleeBase(c) != "maps.Copy" || len(c.Common().Args) != 2 {
+			continue
+		}
+		n++
+		dst, src := c.Common().Args[0], c.Common().Args[1]
+		_, isChildTable := loadOfField(dst, fCO)
+		b, fromParent := loadOfField(src, fCO)
+		ru.Check(isChildTable && fromParent && b == ssa.Value(fn.Params[0]), "copy/same-record", w.IPos(c), "maps.Copy(child.ChildOptions, parent.ChildOptions)", "children do not receive the parent's own record under the same name (a copy would not see parsed values)")
+		helpOut := false
+		for _, f := range factsAt(c.Block()) {
+			if f.Op != token.NEQ || f.Y == nil {
+				continue
+			}
+			x, y := f.X, f.Y
+			if _, ok := loadOfFieldNamed(x, "HelpCommandName"); ok {
+				x, y = y, x
+			}
+			if _, ok := loadOfFieldNamed(x, "Name"); !ok {
+				continue
+			}
+			if pb, ok := loadOfFieldNamed(y, "HelpCommandName"); ok && pb == ssa.Value(fn.Params[0]) {
+				helpOut = true
+			}
+		}
+		ru.Check(helpOut, "copy/help-command-excluded", w.IPos(c), "copy guarded by child.Name != parent.HelpCommandName", "the help command inherits the level's options: a missing required option would turn `prog help` into an error instead of the help text")
+	}
 	if n == 0 {
 		ru.Bad("copy/same-record", w.Pos(fn.Pos()), "no copy into the children's tables")
 	}
@@ -1437,6 +1465,21 @@ func rC12GetEnvBody(w *World, r *Report) {
 						if f.Op == token.EQL && f.Y != nil && f.X == ssa.Value(lc) {
 							if s, ok := constString(f.Y); ok && (s == "true" || s == "false") {
 								return false
+							}
+						}
+						// slices.Contains([]string{"true", "false"}, v)
+						if f.Op == token.ILLEGAL && f.Truth {
+							if cc, ok := f.X.(*ssa.Call); ok && calleeBase(cc) == "slices.Contains" && len(cc.Call.Args) == 2 && cc.Call.Args[1] == ssa.Value(lc) {
+								els, sp, okE := elementsOf(cc.Call.Args[0], map[ssa.Value]bool{})
+								all := okE && len(sp) == 0 && len(els) > 0
+								for _, e := range els {
+									if s, ok := constString(e); !ok || (s != "true" && s != "false") {
+										all = false
+									}
+								}
+								if all {
+									return false
+								}
 							}
 						}
 					}
